@@ -16,7 +16,8 @@ func init() {
 		Technique: "sibling agreement between the two credential generators and the two auth handlers (same derivation function, same arguments), normal form of the expiry comparison from must-facts, provenance of the returned key",
 		Explanation: "C17.1 both generators and both handlers derive the password through one function (longTermCredentials) applied to the full username and the shared secret; the handlers return GenerateAuthKey(ra.Username, ra.Realm, that password) as key; " +
 			"C17.2 a handler returns ok=true only on the edge equivalent to stamp ≥ now — operator and operand order normalised to ¬(int64(stamp) < time.Now().Unix()), whole seconds on both sides — with stamp the Atoi of the leading field of the username on the Atoi-success edge; every other return has ok=false; " +
-			"C17.3 the generators stamp time.Now().Add(duration).Unix() formatted in base 10 as (the leading field of) the username.",
+			"C17.3 the generators stamp time.Now().Add(duration).Unix() formatted in base 10 as (the leading field of) the username; " +
+			"C17.4 GenerateAuthKey hashes username:realm:password of its parameters as given (no normalisation of one side's inputs).",
 		NotCovered: "forgery resistance of HMAC-SHA1/MD5; the clock; usernames containing further colons beyond what the derivation over the full username already binds.",
 		Run:        runC17,
 	})
@@ -108,6 +109,8 @@ func runC17(c *Ctx) {
 			c.Bad("C17.3", fname(fn), "stamp and derivation", w.pos(fn.Pos()), fmt.Sprintf("generator shape changed: stamp=now+duration %v, username built from the stamp %v, secret is the parameter %v, returns (username, derived password) %v", okStamp, okUser, okSecret, okRet))
 		}
 	}
+
+	ruleAuthKeyPure(c, "C17.4")
 
 	// ---- handlers
 	c.Rule("C17.1", "handlers: the password is result #0 of longTermCredentials(ra.Username, sharedSecret) — the full presented username and the captured secret of the enclosing constructor — and the key returned with ok=true is GenerateAuthKey(ra.Username, ra.Realm, that password)", 2)
@@ -233,6 +236,87 @@ func runC17(c *Ctx) {
 		} else {
 			c.Bad("C17.2", fname(h), "expiry", w.instrPos(trueRet), fmt.Sprintf("the accepting return is not on the edge stamp ≥ now in whole seconds (Atoi ok=%v, stamp is the username's leading field=%v, comparison int64(stamp) vs time.Now().Unix() in normal form=%v)", okErr, stampOK, okCmp), w.factsDesc(trueRet)...)
 		}
+	}
+}
+
+// ruleAuthKeyPure (C17.4): GenerateAuthKey is MD5(username ":" realm ":" password) of its
+// parameters as given.
+func ruleAuthKeyPure(c *Ctx, rule string) {
+	w := c.W
+	c.Rule(rule, "GenerateAuthKey hashes exactly username \":\" realm \":\" password: the three parameters, in this order, joined by \":\", reach the MD5 unmodified — the only calls in the function are the hash, the join/concatenation/formatting and byte conversions (no case folding, trimming or other normalisation of one side's inputs: the client signs with the strings as sent)", 1)
+	fn := w.Func("turn", "", "GenerateAuthKey")
+	c.Anchor(rule, "GenerateAuthKey")
+	allowed := func(name string) bool {
+		switch name {
+		case "crypto/md5.New", "crypto/md5.Sum", "fmt.Fprint", "fmt.Sprint", "strings.Join", "io.WriteString", "fmt.Fprintf", "fmt.Sprintf":
+			return true
+		}
+		return false
+	}
+	bad := ""
+	var joined []ssa.Value
+	sep := ""
+	w.eachInstrDeep(fn, func(in ssa.Instruction) {
+		call, ok := in.(*ssa.Call)
+		if !ok {
+			return
+		}
+		if _, isB := call.Call.Value.(*ssa.Builtin); isB {
+			return
+		}
+		if call.Call.IsInvoke() {
+			switch call.Call.Method.Name() {
+			case "Write", "Sum", "Reset", "WriteString":
+				return
+			}
+			bad = "the key derivation invokes " + call.Call.Method.Name() + " at " + w.instrPos(in)
+			return
+		}
+		cal := call.Call.StaticCallee()
+		if cal == nil || !allowed(cal.String()) {
+			name := "a function value"
+			if cal != nil {
+				name = cal.String()
+			}
+			bad = "the key derivation calls " + name + " at " + w.instrPos(in) + ": an input is transformed before it is hashed, so the key differs from the one the client signs with (MD5(username:realm:password) of the strings as sent)"
+			return
+		}
+		if cal.String() == "strings.Join" {
+			joined = variadicElems(call.Call.Args[0])
+			if k, isK := call.Call.Args[1].(*ssa.Const); isK && k.Value != nil {
+				sep = constant.StringVal(k.Value)
+			}
+		}
+	})
+	if bad == "" && len(joined) > 0 {
+		if len(joined) != 3 || sep != ":" {
+			bad = fmt.Sprintf("the hashed string joins %d values with %q, not username:realm:password", len(joined), sep)
+		} else {
+			for i, v := range joined {
+				if p, ok := w.valueRootParam(v); !ok || p != fn.Params[i] {
+					bad = fmt.Sprintf("element %d of the hashed string is %s, not parameter %s", i, w.desc(v), fn.Params[i].Name())
+				}
+			}
+		}
+	}
+	if bad == "" && len(joined) == 0 {
+		// concatenation form: result must depend on all three parameters
+		for _, p := range fn.Params {
+			dep := false
+			for _, r := range returnsOf(fn) {
+				if w.dependsOn(r.Results[0], func(x ssa.Value) bool { return x == ssa.Value(p) }, fn) {
+					dep = true
+				}
+			}
+			if !dep {
+				bad = "the key does not depend on parameter " + p.Name()
+			}
+		}
+	}
+	if bad == "" {
+		c.OK(rule, fname(fn), "GenerateAuthKey", w.pos(fn.Pos()), "MD5 over username:realm:password, parameters unmodified")
+	} else {
+		c.Bad(rule, fname(fn), "GenerateAuthKey", w.pos(fn.Pos()), bad)
 	}
 }
 
